@@ -70,3 +70,27 @@ package freelist
 //@   ensures result == 0 || result >= 2
 //@   ensures result != 0 ==> forall k int :: 0 <= k && k < numPages ==> old(gfree[ifaceref(self)][result + k]) && !gfree[ifaceref(self)][result + k]
 //@   modifies gfree, all("array.ids"), allelems("common.Pgid"), allmaps("common.Pgid", "common.Txid"), allmaps("common.Pgid", "struct{}"), all("hashMap.freePagesCount"), allmaps("uint64", "freelist.pidSet"), allmaps("common.Pgid", "uint64")
+
+//@ ghost var lastreg common.Txid       -- argument of the most recent AddReadonlyTXID
+//@ ghost var lastunreg common.Txid     -- argument of the most recent RemoveReadonlyTXID
+//@ ghost var lastrollback common.Txid  -- argument of the most recent Rollback
+
+//@ func Interface.AddReadonlyTXID
+//@   ensures lastreg == txid
+//@   modifies lastreg, all("shared.readonlyTXIDs"), allelems("common.Txid")
+
+//@ func Interface.RemoveReadonlyTXID
+//@   ensures lastunreg == txid
+//@   modifies lastunreg, all("shared.readonlyTXIDs"), allelems("common.Txid")
+
+//@ func Interface.FreeCount
+//@   ensures result >= 0
+//@   modifies nothing
+
+//@ func Interface.PendingCount
+//@   ensures result >= 0
+//@   modifies nothing
+
+//@ func Interface.EstimatedWritePageSize
+//@   ensures result >= 16
+//@   modifies nothing
